@@ -251,6 +251,22 @@ pub fn variants(base: &Base) -> Vec<Variant> {
     let mut b = fresh();
     b.transactions.push(base.foreign.clone());
     push("append-foreign-tx".into(), "append-tx", b);
+    // crafted slip-less transactions inserted at every position: every type that validates without
+    // inputs x replacement count 0 / 1 / 2 (a leaf count taken from the wire)
+    for ty in [TransactionType::SPV, TransactionType::Normal, TransactionType::Bound] {
+        for rc in [0u32, 1, 2] {
+            for at in 0..=n {
+                let mut b = fresh();
+                let mut t = Transaction::default();
+                t.transaction_type = ty;
+                t.txs_replacements = rc;
+                t.data = b"inserted after signing".to_vec();
+                t.timestamp = 7;
+                b.transactions.insert(at, t);
+                push(format!("insert-crafted-{:?}-rc{}-at{}", ty, rc, at), "insert-crafted-tx", b);
+            }
+        }
+    }
     // header: every fixed-width field
     let fields: Vec<(&str, usize, usize)> = {
         let mut f = vec![("id", 4, 12), ("timestamp", 12, 20), ("previous_block_hash", 20, 52), ("creator", 52, 85), ("merkle_root", 85, 117), ("signature", 117, 181)];
